@@ -112,8 +112,8 @@ fn check_one(re: &Regex, names: &[Option<String>], texts: &[String], pat: &str, 
 }
 
 pub fn run(ctx: &Ctx) -> Outcome {
-    let sp = spaces::unrestricted(ctx.tier, ctx.seed ^ 16, 4, 4, 3_000, 50_000);
-    let texts = spaces::texts_mb(ctx.tier.pick(2, 3));
+    let sp = spaces::unrestricted(ctx.tier, ctx.seed ^ 16, 4, 4, 80_000, 200_000);
+    let texts = spaces::texts_mb(ctx.tier.pick(3, 3));
     let angle = Style { group: GroupStyle::Angle, backref: RefStyle::KAngle, ..Style::default() };
     let pname = Style { group: GroupStyle::PName, backref: RefStyle::PEq, ..Style::default() };
     let plain = Style::default();
